@@ -1444,7 +1444,7 @@ PROCS = [
     # ---- C01 / C02 / C19: the pair-table writers themselves
     dict(name="lammps_write_single", file="_lammps_writeTABLE.py", func="_writeSinglePotential", writer=True, inout="out",
          params=[("pot", ("Rec", "PotRec")), ("minr", "Rat"), ("maxr", "Rat"), ("gridPoints", "Int"), ("out", "Stream")], ret="Stream", records=POT_REC, methods=POT_METHODS),
-    dict(name="lammps_write_potentials", file="_lammps_writeTABLE.py", func="writePotentials", writer=True, inout="out",
+    dict(name="lammps_write_potentials", dest=True, file="_lammps_writeTABLE.py", func="writePotentials", writer=True, inout="out",
          params=[("potentials", ("List", ("Rec", "PotRec"))), ("minr", "Rat"), ("maxr", "Rat"), ("gridPoints", "Int"), ("out", "Stream")], ret="Stream", records=POT_REC, methods=POT_METHODS,
          locals={"potlines": ("List", "Stream")}),
     dict(name="dlpoly_write_potential", file="_dlpoly_writeTABLE.py", func="_writePotential", writer=True, inout="out",
@@ -1453,13 +1453,13 @@ PROCS = [
          ops={"_representable": ("representable", ["OV"], "OV"), "_calculateForce": ("rForceOf", [("Rec", "PotRec"), "Rat"], "OV")}),
     dict(name="dlpoly_write_header", file="_dlpoly_writeTABLE.py", func="_writeTableHeader", writer=True, inout="out",
          params=[("delpot", "Rat"), ("cutpot", "Rat"), ("ngrid", "Int"), ("out", "Stream")], ret="Stream"),
-    dict(name="dlpoly_write_potentials", file="_dlpoly_writeTABLE.py", func="writePotentials", writer=True, inout="out",
+    dict(name="dlpoly_write_potentials", dest=True, file="_dlpoly_writeTABLE.py", func="writePotentials", writer=True, inout="out",
          params=[("potentials", ("List", ("Rec", "PotRec"))), ("cutoff", "Rat"), ("gridPoints", "Int"), ("out", "Stream")], ret=("Except", "WErr", "Stream"), records=POT_REC, methods=POT_METHODS),
     dict(name="r_value_iterator", file="pair_tabulation.py", func="_r_value_iterator", generator=True,
          params=[("tabulation", ("Rec", "TabRec"))], ret=("List", "Rat"), records=TAB_REC),
     dict(name="gulp_write_pot", file="pair_tabulation.py", func="GULP_PairTabulation._write_pot", writer=True, inout="fp",
          params=[("self", ("Rec", "TabRec")), ("pot", ("Rec", "PotRec")), ("fp", "Stream")], ret="Stream", records=dict(POT_REC, **TAB_REC), methods=POT_METHODS),
-    dict(name="gulp_write", file="pair_tabulation.py", func="GULP_PairTabulation.write", writer=True, inout="fp",
+    dict(name="gulp_write", dest=True, file="pair_tabulation.py", func="GULP_PairTabulation.write", writer=True, inout="fp",
          params=[("self", ("Rec", "TabRec")), ("fp", "Stream")], ret="Stream", records=dict(POT_REC, **TAB_REC), methods=POT_METHODS),
     # ---- C03 / C04 / C05: the EAM writers (setfl, setfl Finnis-Sinclair, TABEAM pieces)
     dict(name="setfl_element_header", file="_lammpsWriteEAM.py", func="_writeSetFLElementHeader", writer=True, inout="out",
@@ -1483,15 +1483,15 @@ PROCS = [
     dict(name="setfl_header", file="_lammpsWriteEAM.py", func="_writeSetFLHeader", writer=True, inout="out",
          params=[("nrho", "Int"), ("drho", "Rat"), ("nr", "Int"), ("dr", "Rat"), ("cutoff", "Rat"), ("eampots", ("List", ("Rec", "EamRec"))), ("comments", ("List", "Str")), ("out", "Stream")],
          ret="Stream", records=EAM_REC, retype=["ntypes"]),
-    dict(name="setfl_write", file="_lammpsWriteEAM.py", func="_writeSetFL", writer=True, inout="out",
+    dict(name="setfl_write", dest=True, file="_lammpsWriteEAM.py", func="_writeSetFL", writer=True, inout="out",
          params=[("nrho", "Int"), ("drho", "Rat"), ("nr", "Int"), ("dr", "Rat"), ("cutoff", "Rat"), ("eampots", ("List", ("Rec", "EamRec"))), ("pairpots", ("List", ("Rec", "PotRec"))),
                  ("comments", ("List", "Str")), ("out", "Stream"),
                  ("writeDensityFunction", ("Fun", [("Rec", "EamRec"), ("List", ("Rec", "EamRec")), "Int", "Rat", "Stream"], "Stream"))], ret="Stream",
          records=dict(EAM_REC, **POT_REC), methods=EAM_METHODS, inout_calls={"writeDensityFunction": 4}),
-    dict(name="setfl_write_alloy", file="_lammpsWriteEAM.py", func="writeSetFL", writer=True, inout="out",
+    dict(name="setfl_write_alloy", dest=True, file="_lammpsWriteEAM.py", func="writeSetFL", writer=True, inout="out",
          params=[("nrho", "Int"), ("drho", "Rat"), ("nr", "Int"), ("dr", "Rat"), ("eampots", ("List", ("Rec", "EamRec"))), ("pairpots", ("List", ("Rec", "PotRec"))),
                  ("out", "Stream"), ("comments", ("List", "Str")), ("cutoff", ("Opt", "Rat"))], ret="Stream", records=dict(EAM_REC, **POT_REC), retype=["cutoff"]),
-    dict(name="setfl_write_fs", file="_lammpsWriteEAM.py", func="writeSetFLFinnisSinclair", writer=True, inout="out",
+    dict(name="setfl_write_fs", dest=True, file="_lammpsWriteEAM.py", func="writeSetFLFinnisSinclair", writer=True, inout="out",
          params=[("nrho", "Int"), ("drho", "Rat"), ("nr", "Int"), ("dr", "Rat"), ("eampots", ("List", ("Rec", "EamRec"))), ("pairpots", ("List", ("Rec", "PotRec"))),
                  ("out", "Stream"), ("comments", ("List", "Str")), ("cutoff", ("Opt", "Rat"))], ret="Stream", records=dict(EAM_REC, **POT_REC), retype=["cutoff"]),
     dict(name="tabeam_tabulate", file="_dlpoly_writeTABEAM.py", func="_tabulateFunction", writer=True, inout="outputfile",
@@ -1517,10 +1517,10 @@ PROCS = [
     dict(name="tabeam_except_density", file="_dlpoly_writeTABEAM.py", func="_writeTABEAM_exceptDensity", writer=True, inout="outputbuilder",
          params=[("nrho", "Int"), ("drho", "Rat"), ("nr", "Int"), ("dr", "Rat"), ("eamPotentials", ("List", ("Rec", "EamRec"))), ("pairPotentials", ("List", ("Rec", "PotRec"))),
                  ("title", "Str"), ("numpots", "Rat"), ("outputbuilder", "Stream")], ret="Stream", records=dict(EAM_REC, **POT_REC), methods=EAM_METHODS),
-    dict(name="tabeam_write", file="_dlpoly_writeTABEAM.py", func="writeTABEAM", writer=True, inout="out",
+    dict(name="tabeam_write", dest=True, file="_dlpoly_writeTABEAM.py", func="writeTABEAM", writer=True, inout="out",
          params=[("nrho", "Int"), ("drho", "Rat"), ("nr", "Int"), ("dr", "Rat"), ("eampots", ("List", ("Rec", "EamRec"))), ("pairpots", ("List", ("Rec", "PotRec"))),
                  ("out", "Stream"), ("title", "Str")], ret="Stream", records=dict(EAM_REC, **POT_REC), methods=EAM_METHODS, locals={"numpots": "Rat"}),
-    dict(name="tabeam_write_fs", file="_dlpoly_writeTABEAM.py", func="writeTABEAMFinnisSinclair", writer=True, inout="out",
+    dict(name="tabeam_write_fs", dest=True, file="_dlpoly_writeTABEAM.py", func="writeTABEAMFinnisSinclair", writer=True, inout="out",
          params=[("nrho", "Int"), ("drho", "Rat"), ("nr", "Int"), ("dr", "Rat"), ("eampots", ("List", ("Rec", "EamRec"))), ("pairpots", ("List", ("Rec", "PotRec"))),
                  ("out", "Stream"), ("title", "Str")], ret=("Except", "WErr", "Stream"), records=dict(EAM_REC, **POT_REC), methods=EAM_METHODS, locals={"numpots": "Rat"},
          try_subscripts={("EamRec", "electronDensityFunction"): ("densOfOpt", "Str", ("Rec", "FnRec"))}, raises=[("Density function for", "WErr.missingDensity")]),
